@@ -990,6 +990,10 @@ func ruleR4(c *Ctx) {
 			continue
 		}
 		desc := "make(" + typeString(m.Type) + ")"
+		if _, isRet := p.Parent(m.Call).(*ast.ReturnStmt); isRet && m.Dest == nil {
+			c.Ok(m.Func, m.Call, desc+" returned directly", "a channel that is created in the return statement is known to nobody but the receiver: it is never sent to (a never-ready placeholder)", "not stored anywhere, no sender can exist", false)
+			continue
+		}
 		c.Check(m.Cap == ">=1", m.Func, m.Call, desc,
 			"a reply channel must have capacity >= 1: its receiver is the token's select, which can leave through ctx.Done or its termination channel, so an unbuffered reply strands the replying node goroutine (and its sender handle) forever",
 			"capacity class "+m.Cap)
